@@ -56,6 +56,10 @@ macro_rules! int_atomic {
             #[track_caller]
             pub fn compare_exchange_weak(&self, c: $t, n: $t, s: Ordering, f: Ordering) -> Result<$t, $t> {
                 self.touch(false);
+                if crate::ctl::weak_cas_fails() {
+                    // spurious failure: a load with the failure ordering
+                    return Err(self.0.load(f));
+                }
                 self.0.compare_exchange_weak(c, n, s, f)
             }
             #[track_caller]
